@@ -1085,6 +1085,7 @@ class Interp:
                     ent = False
                 else:
                     merged = B.merge_vals([(z3.And(*r.pc) if r.pc else z3.BoolVal(True), r.value) for r in res])
+                    sub._subst(merged, [])      # only flat result shapes can be summarised
                     ent = (terms, merged)
             except Unsupported:
                 ent = False
